@@ -120,8 +120,9 @@ Entitled(call, bk, b, o, old, new, t) ==
     CASE old = new -> TRUE
       [] old.s = "a" /\ new.s = "a" -> FALSE                                    \* nobody re-labels a live allocation
       [] old.s = "a" -> MayFree(call, bk, o, addr, old)
-      [] new.s = "a" -> MayAlloc(call, b, addr, new) /\ (old.s = "c" => Cooled(bk, o, t))   \* C21 cooldown
-      [] old.s = "c" /\ new.s = "f" -> Cooled(bk, o, t)                         \* C21 cooldown
+      \* C21 cooldown: whatever happened in between (cooling, deallocated, block deleted and re-created), an
+      \* address is not handed out before its last release + cooldown
+      [] new.s = "a" -> MayAlloc(call, b, addr, new) /\ Cooled(bk, o, t)
       [] OTHER -> TRUE
 
 \* C21 longest-free first: an auto-assign must not take an address while leaving free (and usable) one
